@@ -121,7 +121,7 @@ func (cl *c16WireClient) send(v interface{}) bool {
 
 // await waits for a reply whose data.type (or type) equals want.
 func (cl *c16WireClient) await(want string) bool {
-	deadline := time.After(c16Wait)
+	deadline := time.After(c16W())
 	for {
 		select {
 		case m, ok := <-cl.inbox:
@@ -137,7 +137,7 @@ func (cl *c16WireClient) await(want string) bool {
 				}
 			}
 		case <-deadline:
-			cl.failf("c16.wire-no-reply", "client %d: no %q reply within %v (hub loop stuck?)", cl.idx, want, c16Wait)
+			cl.failf("c16.wire-no-reply", "client %d: no %q reply within %v (hub loop stuck?)", cl.idx, want, c16W())
 			return false
 		}
 	}
@@ -228,7 +228,7 @@ func runC16Wire(c c16WireCase) evid.Outcome {
 		wg.Add(1)
 		go func(cl *c16WireClient, ops []c16WireOp) { defer wg.Done(); cl.run(ops) }(cl, c.Clients[i])
 	}
-	ok, _ := evid.WithTimeout(4*c16Wait, wg.Wait)
+	ok, _ := evid.WithTimeout(40*time.Second, wg.Wait)
 	var out *evid.Failure
 	select {
 	case p := <-panicCh:
@@ -276,7 +276,7 @@ func runC16Wire(c c16WireCase) evid.Outcome {
 	}
 	if out == nil {
 		// closed clients are unregistered (ReadPump saw the close); wait bounded
-		deadline := time.Now().Add(c16Wait)
+		deadline := time.Now().Add(c16W())
 		for hub.GetConnectionCount() != open && time.Now().Before(deadline) {
 			time.Sleep(time.Millisecond)
 		}
@@ -309,9 +309,9 @@ func runC16Wire(c c16WireCase) evid.Outcome {
 	}
 	// Shutdown with whatever is still connected must return
 	if out == nil || (out.Key != "c16.deadlock" && out.Key != "c16.hub-loop-panic") {
-		done, _ := evid.WithTimeout(c16Wait, hub.Shutdown)
+		done, _ := evid.WithTimeout(10*time.Second, hub.Shutdown)
 		if !done && out == nil {
-			out = &evid.Failure{Key: "c16.shutdown-hangs", Msg: fmt.Sprintf("Hub.Shutdown did not return within %v with %d clients connected and %d refused", c16Wait, open, rejected)}
+			out = &evid.Failure{Key: "c16.shutdown-hangs", Msg: fmt.Sprintf("Hub.Shutdown did not return within %v with %d clients connected and %d refused", c16W(), open, rejected)}
 		}
 	}
 	for _, cl := range clients {
